@@ -2,7 +2,7 @@
 # tools/try_seed.sh <patch.diff> <PID> [tier] [extra vcheck args]
 # Apply a seeded change to /repo, run the property's check, and ALWAYS undo the change afterwards.
 V="$(cd "$(dirname "$0")/.." && pwd)"
-P="$1"; PID="$2"; TIER="${3:-quick}"; shift 3 2>/dev/null || shift 2
+P="$1"; PID="$2"; TIER="${3:-quick}"; if [ $# -ge 3 ]; then shift 3; else shift 2; fi
 if [ -n "$(git -C /repo status --porcelain --untracked-files=no)" ]; then echo "refusing: /repo has uncommitted changes"; exit 2; fi
 git -C /repo apply --check "$P" || { echo "patch does not apply"; exit 2; }
 git -C /repo apply "$P"
